@@ -404,6 +404,40 @@ class SubsampledSubarray(Subarray):
 
         return s
 
+    def _select_data(self, data=None, check_mask=True):
+        """Select the tie points that correspond to this subarea.
+
+        Integer tie points are returned as floating point numbers, so
+        that the interpolation formulas are not evaluated in integer
+        arithmetic (for which, for instance, the difference of two
+        8-bit tie points may overflow).
+
+        .. versionadded:: (cfdm) NEXTVERSION
+
+        .. seealso:: `_select_location`, `_select_parameter`
+
+        :Parameters:
+
+            data: array_like or `None`
+                The full compressed array, or if `None` then the
+                `data` array is used.
+
+            check_mask: `bool`, optional
+                Whether or not to check for masked values.
+
+        :Returns:
+
+            `numpy.ndarray`
+                The values of the array that correspond to this
+                subarea.
+
+        """
+        u = super()._select_data(data=data, check_mask=check_mask)
+        if u.dtype.kind in "iu":
+            u = u.astype(float)
+
+        return u
+
     def _select_location(self, array, location=None):
         """Select interpolation parameter points interpolation subarea.
 
